@@ -160,6 +160,25 @@ def gen_partial():
     out += "(* metacommands.rad50: try: if len(char.upper()) != 1: raise ValueError; val = TABLE.index(char.upper()) except <these>: report; val = 0 *)\n"
     out += f"Definition rad50_caught : list string := {slist(r_caught)}.\n\n"
 
+    # ---- struct.pack formats of the data directives (Model/Partial.v: pack_byte / pack_word / pack_dword / ascii_chunk) ----
+    byte = find_def(tree, "byte")
+    dump_eq(byte.body[-1], "return b''.join(struct.pack('<B', operand) for operand in byte_operand)", "metacommands.byte: pack")
+    need(ast.unparse(byte.args) == "state, *byte_operand: int8", "metacommands.byte: signature")
+    word = find_def(tree, "word")
+    dump_eq(word.body[-1], "return prefix + b''.join(struct.pack('<H', operand) for operand in word_operand)", "metacommands.word: pack")
+    need(ast.unparse(word.args) == "state, *word_operand: int16", "metacommands.word: signature")
+    dword = find_def(tree, "dword")
+    need(ast.unparse(dword.args) == "state, *dword_operand: int32", "metacommands.dword: signature")
+    enc = [n for n in dword.body if isinstance(n, ast.FunctionDef) and n.name == "encode_i32"]
+    need(len(enc) == 1, "metacommands.dword: encode_i32 not found")
+    dump_eq(enc[0], "def encode_i32(value):\n    return struct.pack('<H', value >> 16) + struct.pack('<H', value & 0xffff)", "metacommands.dword: encode_i32")
+    dump_eq(dword.body[-1], "return prefix + b''.join(encode_i32(operand) for operand in dword_operand)", "metacommands.dword: pack")
+    packs = [ast.unparse(c) for f in (byte, word, dword) for c, _ in walk_with_guards(f) if ast.unparse(c.func) == "struct.pack"]
+    ai = find_def(tree, "ascii_impl")
+    appends = [ast.unparse(c) for c, _ in walk_with_guards(ai) if ast.unparse(c.func) == "result.append"]
+    need(appends == ["result.append(get_as_int(state, 'byte character', chunk, chunk.expr, bitness=8, unsigned=True, default=0))"],
+         "metacommands.ascii_impl: the <n> chunk is no longer appended through get_as_int(bitness=8, unsigned=True, default=0): " + repr(appends))
+
     # ---- radix50.py --------------------------------------------------------------------------------------------
     tree, _ = parse("pdpy11/radix50.py")
     table = const_str(find_assign(tree, "TABLE"), "radix50.TABLE")
